@@ -40,6 +40,14 @@ def ok(result: bool) -> bool:
     return bool(result)
 
 
+def small(*xs: Any) -> bool:
+    """Bound symbolic strings (len <= 2); other kinds pass."""
+    for x in xs:
+        if isinstance(x, str) and len(x) > 2:
+            return False
+    return True
+
+
 def kf(name: str) -> bool:
     """True when known finding *name* is listed (its inputs are then excluded)."""
     return name in KF
